@@ -17,12 +17,15 @@ def run():
     cov = b.coverage(
         rule=f"every text of 0..{n} lines, each line one of {nb} line shapes (blank, blanks only, un-indented, "
              f"indented, trailing blanks, adjacent/separated tokens, keyword, tab indent, quoted string, illegal "
-             f"character inside the line / in column 1) for the configurations plain, synonyms, keywords and one of "
+             f"character inside the line / in column 1, tokens separated by form feed / NEL+U+2028 / vertical tab+"
+             f"lone CR+FS - blanks that str.splitlines breaks at but that are not line separators, tokens with "
+             f"optional ':' '!' parts) for the configurations plain, synonyms, keywords and one of "
              f"{ns} shapes (the former + span opener/closer on the same line, opener behind a token, closer before a "
              f"token, closer / opener in column 1) for the configuration with one span matcher; every text given as "
              f"one str and as a list of lines (the 0-line text only as the empty list, '' being the one-blank-line "
              f"text); per case: _Tokenizer.tokenize output and LLParser.parse trees (raw and cleaned; a fixed "
-             f"grammar with nullable leaves, a nullable inner node and a factorized production; for the span "
+             f"grammar with nullable leaves, a nullable inner node, one to three consecutive trailing children that "
+             f"may match nothing (followed by skipped blanks / line break / comment) and a factorized production; for the span "
              f"configuration once with the span token skipped and once as a leaf) against a hand-written reference "
              f"scanner of the same token language. non-trivial = the text has >= 2 lines or holds a span token",
         exhaustive=True,
